@@ -13,6 +13,27 @@ CLAIMED = {
  "C05": dict(cat="model_checking", design="§4 C05", technique="TLA+ spec Chain.tla fork-choice Decide/Criteria + TLC-generated scenarios + trace validation with real burn fees bound as limb numbers",
    text="The fork-choice rule (strictly longer, at least as heavy, valid block by block, ticket density in every window, tip height monotone, orphans inert) is a TLA+ operator evaluated by TLC both on the bounded model and on every observed tip movement of the real node: a tip move without the criteria, an adoptable block not adopted, a lower tip, or an orphan disturbing the index is reported. Burn fees are the real header values.",
    note="same trusted base as C03; two readings of 'current chain' are admitted for nodes that adopted a chain with unseen ancestry (see DESIGN.md)"),
+ "C01": dict(cat="model_checking", design="§4 C01", technique="TLA+ spec Ledger.tla validity rules (TxViolations/BlockViolations) + MC_Ledger bounded model with adversary edit catalogue (TLC exhaustive + -simulate GEN) + trace validation (LedgerTrace.tla)",
+   text="The spending rules (input exists and unspent on this chain, inside the window, owned by the signer, not duplicated, signature valid, privileged types only from consensus code) are one TLA+ operator. TLC checks the bounded ledger model with an adversary applying the edit catalogue at every position, emits its behaviours as scenarios, and validates the real node's trace: for every block the node adopts, every transaction is judged by the operator against the monitor's own replayed ledger; for every pool admission likewise.",
+   note="trusted: TLC, harness projection, transaction descriptions logged by construction (signer, signature validity), builder nodes; NFT/staking-on configurations not exercised"),
+ "C02": dict(cat="model_checking", design="§4 C02", technique="TLA+ Supply equation over limb numbers evaluated by TLC on every accepted block of recorded traces + MC_Ledger SupplyConserved invariant",
+   text="Supply = in-window non-bound outputs + treasury + graveyard + unpaid + fees is computed in unbounded (limb) arithmetic by the TLA+ monitor from the projected ledger and the tip header after every accepted block and compared with the genesis issuance; per transaction outputs<=inputs is checked in unbounded arithmetic (wrap-around edits included).",
+   note="independent of the node's own check_total_supply; amounts logged as base-2^21 limb triples"),
+ "C06": dict(cat="model_checking", design="§4 C06", technique="block-level edit catalogue replayed on real blocks; LedgerTrace.tla rejects acceptance of an edited block",
+   text="Every honest block of the scenarios can be edited after signing (transaction dropped, duplicated, swapped, payload changed, root zeroed, re-signed by another key, unsigned header change); the monitor requires that an effective edit is never adopted. The injectivity idealisation lives in the spec; the verdict comes from the real merkle/signature code.",
+   note="edits are applied to builder-produced blocks delivered to a node that has not seen the original"),
+ "C07": dict(cat="model_checking", design="§4 C07", technique="node's own producer (Mempool::bundle_block) driven by TLC/seeded scenarios; produced block must be adopted by producer and replica; honest builder blocks judged valid by Ledger.tla must be accepted",
+   text="Whenever the node's producer emits a block it is serialised, delivered to the producer and to a replica holding the same chain, and both must adopt it; additionally every block produced by Block::create on an honest branch whose transactions satisfy the spec's rules must be accepted.",
+   note="pool contents from the MC_Ledger pool actions and the seeded economy generator (fees, paths, tickets, window wrap)"),
+ "C13": dict(cat="model_checking", design="§4 C13", technique="TLA+ AtrViolations + MC_Ledger Rebroadcast model (NothingExpiredLingers) + trace validation over window-wrapping histories",
+   text="For every adopted block past the window the monitor computes the set of outputs leaving the window from its own ledger and checks that rebroadcast transactions consume only those, each once, preserve the owner and produce ATR outputs; spending the original after rebroadcast is part of the adversary catalogue (spent_input).",
+   note="G in {2,3,4,6}; NFT bound triples not generated"),
+ "C14": dict(cat="model_checking", design="§4 C14", technique="MC_Ledger pool actions (PoolNoShare, PoolSpendsLive) + trace validation of pool/reservation projections after every operation",
+   text="After every submit, block and bundle operation the monitor checks on the projected pool: no two pooled transactions share an input, every pooled transaction is valid against the observed ledger, no unspent output is reserved without a pooled spender, a valid unconflicted Normal transaction is admitted, and a declined bundle leaves pool and reservations unchanged.",
+   note="pool projection maps signatures to scenario transaction ids; the node's own staking transaction is ignored"),
+ "C19": dict(cat="model_checking", design="§4 C19", technique="wallet projection checked by LedgerTrace.tla after every operation",
+   text="After every operation: balance = sum of listed unspent slips (limb arithmetic); on reorg-free histories with nothing pending the wallet's unspent set equals the ledger's in-window outputs of the node key.",
+   note="wallet-built transactions (create_with_multiple_payments) are covered by the dedicated wallet family (see evidence)"),
 }
 
 def main():
